@@ -77,77 +77,155 @@ theorem Sectors.get_spec (s : Sectors) (id : Nat) (rd body : Bytes) (h : s.data 
     · simp
     · simp only [List.length_append]; omega
     · simp only [List.length_append]; omega
-theorem Sectors.get_limit (s : Sectors) (id : Nat) (rd : Bytes) : (s.get id rd).2.1.limit = s.limit := rfl
+theorem Sectors.get_conserve (s : Sectors) (id : Nat) (rd : Bytes) :
+    (s.get id rd).2.1.data.length + (s.get id rd).2.2.length = s.data.length + rd.length := by
+  have := (Sectors.get_spec s id rd _ rfl).2.1
+  have := congrArg List.length this
+  simpa using this
+
+theorem Sectors.get_data_mono (s : Sectors) (id : Nat) (rd : Bytes) :
+    s.data.length ≤ (s.get id rd).2.1.data.length := by
+  unfold Sectors.get
+  dsimp only
+  split
+  · simp
+  · exact Nat.le_refl _
+
+/-- after reading sector `id` the cache covers it (when the file holds the whole sector) -/
+theorem Sectors.get_covers (s : Sectors) (id : Nat) (rd body : Bytes) (h : s.data ++ rd = body)
+    (hfull : (id + 1) * s.size ≤ body.length) : (id + 1) * s.size ≤ (s.get id rd).2.1.data.length := by
+  subst h
+  unfold Sectors.get
+  dsimp only
+  rw [Nat.add_mul, Nat.one_mul] at hfull ⊢
+  simp only [List.length_append] at hfull
+  split
+  · simp only [List.length_append, List.length_take]; omega
+  · omega
+
+theorem sec_full_length (body : Bytes) (ss id : Nat) (h : (id + 1) * ss ≤ body.length) : (sec body ss id).length = ss := by
+  unfold sec
+  rw [Nat.add_mul, Nat.one_mul] at h
+  simp only [List.length_take, List.length_drop]; omega
+
+/-- pigeonhole: distinct sector numbers whose sectors all lie within the first `N` bytes -/
+theorem covered_count (ss N : Nat) (hss : 0 < ss) (ids : List Nat) (hnd : ids.Nodup)
+    (hcov : ∀ x ∈ ids, (x + 1) * ss ≤ N) : ids.length * ss ≤ N := by
+  have hsub : ids ⊆ List.range (N / ss) := by
+    intro x hx
+    have := hcov x hx
+    have : x + 1 ≤ N / ss := (Nat.le_div_iff_mul_le hss).mpr this
+    simp only [List.mem_range]; omega
+  have := List.Nodup.length_le_of_subset hnd hsub
+  simp only [List.length_range] at this
+  exact Nat.le_trans (Nat.mul_le_mul_right ss this) (Nat.div_mul_le_self N ss)
 
 theorem chainLoop_end (fats : List Nat) (rem : Nat) (s : Sectors) (rd : Bytes) (acc : Nat) :
     Sectors.chainLoop fats rem ENDOFCHAIN s rd acc = .ok ([], s, rd) := by
   cases rem <;> simp [Sectors.chainLoop]
 
-/-- `size` and `limit` of a `Sectors` never change -/
+/-- along the chain loop: the sector size never changes, the bytes (cache + unread) are conserved, the
+    cache only grows, and what is accumulated never exceeds the cache (`X_alloc`) -/
 theorem chainLoop_params (fats : List Nat) :
     ∀ (rem id : Nat) (s : Sectors) (rd : Bytes) (acc : Nat) (x : Bytes) (s' : Sectors) (rd' : Bytes),
-      Sectors.chainLoop fats rem id s rd acc = .ok (x, s', rd') → s'.size = s.size ∧ s'.limit = s.limit := by
+      Sectors.chainLoop fats rem id s rd acc = .ok (x, s', rd') →
+      s'.size = s.size ∧ s'.data.length + rd'.length = s.data.length + rd.length ∧ s.data.length ≤ s'.data.length ∧
+      (acc ≤ s.data.length → acc + x.length ≤ s'.data.length) := by
   intro rem
   induction rem with
   | zero =>
     intro id s rd acc x s' rd' h
     unfold Sectors.chainLoop at h
     split at h
-    · injection h with h; injection h with _ h; injection h with h1 _; subst h1; exact ⟨rfl, rfl⟩
+    · injection h with h; injection h with h0 h; injection h with h1 h2; subst h0 h1 h2
+      exact ⟨rfl, rfl, Nat.le_refl _, fun ha => by simpa using ha⟩
     · cases h
   | succ rem ih =>
     intro id s rd acc x s' rd' h
     unfold Sectors.chainLoop at h
     split at h
-    · injection h with h; injection h with _ h; injection h with h1 _; subst h1; exact ⟨rfl, rfl⟩
+    · injection h with h; injection h with h0 h; injection h with h1 h2; subst h0 h1 h2
+      exact ⟨rfl, rfl, Nat.le_refl _, fun ha => by simpa using ha⟩
     · split at h
       · cases h
       · dsimp only at h
         split at h
         · cases h
-        · split at h
+        · rename_i hchk
+          split at h
           · rename_i rest s'' rd'' heq
-            injection h with h; injection h with _ h; injection h with h1 _
-            have := ih _ _ _ _ _ _ _ heq
-            subst h1
-            exact ⟨this.1.trans (Sectors.get_spec s id rd _ rfl).2.2, this.2⟩
+            injection h with h; injection h with h0 h; injection h with h1 h2
+            obtain ⟨p1, p2, p3, p4⟩ := ih _ _ _ _ _ _ _ heq
+            subst h0 h1 h2
+            refine ⟨p1.trans (Sectors.get_spec s id rd _ rfl).2.2, ?_, ?_, ?_⟩
+            · rw [p2]; exact Sectors.get_conserve s id rd
+            · exact Nat.le_trans (Sectors.get_data_mono s id rd) p3
+            · intro _
+              have := p4 (by omega)
+              simp only [List.length_append]; omega
           · cases h
           · cases h
           · cases h
 
-theorem chainLoop_follow (fats : List Nat) (body : Bytes) :
-    ∀ (ids : List Nat) (rem : Nat) (s : Sectors) (rd : Bytes) (acc : Nat),
-      s.data ++ rd = body → ids.length ≤ rem →
+/-- following a recorded chain of DISTINCT sectors that the file holds entirely; `V` are the sectors already
+    accumulated (covered by the cache), so that the accumulation guard of the fixed loop is seen to pass -/
+theorem chainLoop_follow_gen (fats : List Nat) (body : Bytes) :
+    ∀ (ids V : List Nat) (rem : Nat) (s : Sectors) (rd : Bytes),
+      s.data ++ rd = body → ids.length ≤ rem → 0 < s.size →
       (∀ i (h : i < ids.length), ids[i] ≠ ENDOFCHAIN ∧ fats[ids[i]]? = some (ids[i+1]?.getD ENDOFCHAIN)) →
-      acc + ((ids.map (sec body s.size)).flatten).length ≤ s.limit →
-      ∃ s' rd', Sectors.chainLoop fats rem (ids[0]?.getD ENDOFCHAIN) s rd acc =
+      (V ++ ids).Nodup → (∀ v ∈ V, (v + 1) * s.size ≤ s.data.length) → (∀ x ∈ ids, (x + 1) * s.size ≤ body.length) →
+      ∃ s' rd', Sectors.chainLoop fats rem (ids[0]?.getD ENDOFCHAIN) s rd (V.length * s.size) =
           .ok ((ids.map (sec body s.size)).flatten, s', rd') ∧ s'.data ++ rd' = body ∧ s'.size = s.size := by
   intro ids
   induction ids with
   | nil =>
-    intro rem s rd acc hinv _ _ _
+    intro V rem s rd hinv _ _ _ _ _ _
     exact ⟨s, rd, by simp [chainLoop_end], hinv, rfl⟩
   | cons a rest ih =>
-    intro rem s rd acc hinv hrem hch hlim
+    intro V rem s rd hinv hrem hss hch hnd hV hfull
     obtain ⟨rem', rfl⟩ : ∃ r, rem = r + 1 := ⟨rem - 1, by simp at hrem; omega⟩
     have h0 := hch 0 (by simp)
     simp only [List.getElem_cons_zero, Nat.zero_add, List.getElem?_cons_succ] at h0
     obtain ⟨hne, hfat⟩ := h0
     obtain ⟨hg1, hg2, hg3⟩ := Sectors.get_spec s a rd body hinv
-    simp only [List.map_cons, List.flatten_cons, List.length_append] at hlim
-    have hrest := ih rem' (s.get a rd).2.1 (s.get a rd).2.2 (acc + (s.get a rd).1.length) hg2
-      (by simp at hrem; omega) (by
-      intro i hi
-      have := hch (i + 1) (by simp; omega)
-      simpa using this) (by rw [hg3, Sectors.get_limit, hg1]; omega)
+    have hafull := hfull a (by simp)
+    have hslice : (s.get a rd).1.length = s.size := by rw [hg1]; exact sec_full_length body s.size a hafull
+    have hcovA := Sectors.get_covers s a rd body hinv hafull
+    have hmono := Sectors.get_data_mono s a rd
+    have hnd' : ((V ++ [a]) ++ rest).Nodup := by simpa [List.append_assoc] using hnd
+    have hV' : ∀ v ∈ V ++ [a], (v + 1) * s.size ≤ (s.get a rd).2.1.data.length := by
+      intro v hv
+      simp only [List.mem_append, List.mem_cons, List.not_mem_nil, or_false] at hv
+      rcases hv with hv | rfl
+      · exact Nat.le_trans (hV v hv) hmono
+      · exact hcovA
+    have hcnt := covered_count s.size _ hss (V ++ [a]) (List.Nodup.sublist (List.sublist_append_left _ _) hnd') hV'
+    simp only [List.length_append, List.length_cons, List.length_nil, Nat.zero_add] at hcnt
+    have hrest := ih (V ++ [a]) rem' (s.get a rd).2.1 (s.get a rd).2.2 hg2 (by simp at hrem; omega) (by rw [hg3]; exact hss)
+      (by
+        intro i hi
+        have := hch (i + 1) (by simp; omega)
+        simpa using this) hnd' (by rw [hg3]; exact hV') (by rw [hg3]; exact fun x hx => hfull x (by simp [hx]))
     obtain ⟨s', rd', he, hi', hs'⟩ := hrest
     refine ⟨s', rd', ?_, hi', by rw [hs', hg3]⟩
     simp only [List.getElem?_cons_zero, Option.getD_some]
     unfold Sectors.chainLoop
-    have hchk : ¬ (acc + (s.get a rd).1.length > s.limit) := by rw [hg1]; omega
+    have hchk : ¬ (V.length * s.size + (s.get a rd).1.length > (s.get a rd).2.1.data.length) := by
+      rw [hslice, Nat.add_mul, Nat.one_mul] at *; omega
     simp only [hne, if_false, hfat, hchk]
-    rw [he]
+    have hacc : V.length * s.size + (s.get a rd).1.length = (V ++ [a]).length * (s.get a rd).2.1.size := by
+      rw [hslice, hg3]; simp [Nat.add_mul]
+    rw [hacc, he]
     simp only [List.map_cons, List.flatten_cons, hg1, hg3]
+
+theorem chainLoop_follow (fats : List Nat) (body : Bytes) (ids : List Nat) (rem : Nat) (s : Sectors) (rd : Bytes)
+    (hinv : s.data ++ rd = body) (hrem : ids.length ≤ rem) (hss : 0 < s.size)
+    (hch : ∀ i (h : i < ids.length), ids[i] ≠ ENDOFCHAIN ∧ fats[ids[i]]? = some (ids[i+1]?.getD ENDOFCHAIN))
+    (hnd : ids.Nodup) (hfull : ∀ x ∈ ids, (x + 1) * s.size ≤ body.length) :
+    ∃ s' rd', Sectors.chainLoop fats rem (ids[0]?.getD ENDOFCHAIN) s rd 0 =
+        .ok ((ids.map (sec body s.size)).flatten, s', rd') ∧ s'.data ++ rd' = body ∧ s'.size = s.size := by
+  have := chainLoop_follow_gen fats body ids [] rem s rd hinv hrem hss hch (by simpa using hnd) (by simp) hfull
+  simpa using this
 
 /-! ## sector-sized pieces -/
 
@@ -393,6 +471,33 @@ theorem Space.read_chain (sp : Space) (ss : Nat) (hss : 0 < ss) (fill : UInt8) (
 
 
 /-! ## reading a chain of a space -/
+
+theorem flatten_uniform_length (ss : Nat) : ∀ (Ls : List Bytes), (∀ x ∈ Ls, x.length = ss) →
+    Ls.flatten.length = ss * Ls.length := by
+  intro Ls
+  induction Ls with
+  | nil => simp
+  | cons x xs ih =>
+    intro h
+    simp only [List.flatten_cons, List.length_append, List.length_cons]
+    rw [ih (fun y hy => h y (by simp [hy])), h x (by simp), Nat.mul_add]; omega
+
+theorem Space.body_length (sp : Space) (ss : Nat) (fill : UInt8) (P : Array (Array Bytes)) (fatSec difSec : Nat → Bytes)
+    (hP : UniformP ss P) (hf : ∀ j, (fatSec j).length = ss) (hd : ∀ j, (difSec j).length = ss) :
+    (sp.body ss fill P fatSec difSec).length = ss * sp.owner.size := by
+  unfold Space.body
+  rw [flatten_uniform_length ss]
+  · simp
+  · intro x hx
+    simp only [List.mem_map] at hx
+    obtain ⟨s', _, rfl⟩ := hx
+    exact sectorOf_length ss fill P fatSec difSec hP hf hd s'
+
+theorem sec_append_left (B extra : Bytes) (ss id : Nat) (h : (id + 1) * ss ≤ B.length) :
+    sec (B ++ extra) ss id = sec B ss id := by
+  unfold sec
+  rw [List.drop_append_of_le_length (by rw [Nat.add_mul] at h; omega)]
+  rw [List.take_append_of_le_length (by rw [List.length_drop, Nat.add_mul] at *; omega)]
 
 theorem chainStart_eq (sp : Space) (c : Nat) : chainStart sp c = (sp.ids c)[0]?.getD ENDOFCHAIN := by
   unfold chainStart Space.ids
@@ -640,6 +745,10 @@ theorem ss_cases (L : Layout) : (L.ss = 512 ∧ L.perFat = 128) ∨ (L.ss = 4096
   unfold Layout.perFat Layout.ss
   cases L.v4 <;> simp
 
+theorem ss_pos (L : Layout) : 0 < L.ss := by rcases ss_cases L with ⟨h, _⟩ | ⟨h, _⟩ <;> omega
+theorem slot_fat_inj : ∀ a b, Slot.fat a = Slot.fat b → a = b := by intro a b h; injection h
+theorem slot_difat_inj : ∀ a b, Slot.difat a = Slot.difat b → a = b := by intro a b h; injection h
+
 theorem mainPieces_get (streams : List Stream) (L : Layout) (c : Nat) (D : Bytes)
     (h : (mainData streams L)[c]? = some D) : (mainPieces streams L)[c]? = some (pieces L.ss L.fill D) := by
   unfold mainPieces
@@ -669,6 +778,9 @@ theorem mainBody_sec (streams : List Stream) (L : Layout) (k : Nat) (s : Slot) (
     sec (mainBody streams L) L.ss k = sectorOf L.ss L.fill (mainPieces streams L) (fatSector L) (difSector L) s :=
   Space.body_sec L.main L.ss L.fill _ _ _ (mainPieces_uniform streams L) (fatSector_length L) (difSector_length L) k s hk
 
+
+theorem mainBody_length (streams : List Stream) (L : Layout) : (mainBody streams L).length = L.ss * L.total :=
+  Space.body_length L.main L.ss L.fill _ _ _ (mainPieces_uniform streams L) (fatSector_length L) (difSector_length L)
 
 theorem fatIdAt_lt (streams : List Stream) (L : Layout) (hv : ValidP streams L) (t : Nat) :
     fatIdAt L t < 4294967296 := by
@@ -721,27 +833,52 @@ theorem difatUpTo_succ (L : Layout) (j : Nat) :
   rw [this, ← List.range'_append_1]
   simp
 
+/-- id of DIFAT sector `i` -/
+def difIdAt (L : Layout) (i : Nat) : Nat := L.difIds[i]?.getD ENDOFCHAIN
+
+theorem difIdAt_spec (streams : List Stream) (L : Layout) (hv : ValidP streams L) (i : Nat) (hi : i < L.ndif) :
+    difIdAt L i < L.total ∧ L.main.owner[difIdAt L i]? = some (Slot.difat i) := by
+  obtain ⟨kk, hkk⟩ : ∃ kk, L.difIds[i]? = some kk := ⟨L.difIds[i]'(by simpa [Layout.ndif] using hi), by
+    simp only [Layout.ndif] at hi; simp [hi]⟩
+  have := difId_lt streams L hv i kk hkk
+  unfold difIdAt
+  rw [hkk]; exact this
+
+theorem nodup_of_owner (owner : Array Slot) (mk : Nat → Slot) (hinj : ∀ a b, mk a = mk b → a = b) (f : Nat → Nat)
+    (n : Nat) (h : ∀ i, i < n → owner[f i]? = some (mk i)) : ((List.range n).map f).Nodup := by
+  rw [List.Nodup, List.pairwise_iff_getElem]
+  intro i j hi hj hij heq
+  simp only [List.length_map, List.length_range] at hi hj
+  simp only [List.getElem_map, List.getElem_range] at heq
+  have h1 := h i hi
+  have h2 := h j hj
+  rw [heq, h2] at h1
+  have := hinj _ _ (Option.some.inj h1)
+  omega
+
 theorem difatLoop_layout (streams : List Stream) (L : Layout) (hv : ValidP streams L) :
-    ∀ (k j : Nat), j + k = L.ndif → ∀ (rem : Nat) (s : Sectors) (rd : Bytes), k ≤ rem →
+    ∀ (k j : Nat), j + k = L.ndif → ∀ (fuel : Nat) (s : Sectors) (rd : Bytes), k ≤ fuel →
       s.data ++ rd = mainBody streams L → s.size = L.ss →
-      ∃ s' rd', difatLoop rem (L.difIds[j]?.getD ENDOFCHAIN) (difatUpTo L j) s rd =
+      (∀ i, i < j → (difIdAt L i + 1) * L.ss ≤ s.data.length) →
+      ∃ s' rd', difatLoop fuel (L.difIds[j]?.getD ENDOFCHAIN) (difatUpTo L j) s rd j =
           .ok (difatUpTo L L.ndif, s', rd') ∧ s'.data ++ rd' = mainBody streams L ∧ s'.size = L.ss := by
   intro k
   induction k with
   | zero =>
-    intro j hj rem s rd _ hinv hsz
+    intro j hj fuel s rd _ hinv hsz _
     have hj' : j = L.ndif := by omega
     subst hj'
     have : L.difIds[L.ndif]? = none := Array.getElem?_eq_none (by simp [Layout.ndif])
     rw [this]
     refine ⟨s, rd, ?_, hinv, hsz⟩
-    cases rem <;> simp [difatLoop, ENDOFCHAIN, RESERVED]
+    cases fuel <;> simp [difatLoop, ENDOFCHAIN, RESERVED]
   | succ k ih =>
-    intro j hj rem s rd hrem hinv hsz
-    obtain ⟨rem', rfl⟩ : ∃ r, rem = r + 1 := ⟨rem - 1, by omega⟩
+    intro j hj fuel s rd hrem hinv hsz hcov
+    obtain ⟨rem', rfl⟩ : ∃ r, fuel = r + 1 := ⟨fuel - 1, by omega⟩
     have hjlt : j < L.difIds.size := by simp only [Layout.ndif] at hj; omega
     obtain ⟨kk, hkk⟩ : ∃ kk, L.difIds[j]? = some kk := ⟨L.difIds[j], by simp [hjlt]⟩
     obtain ⟨hklt, hown⟩ := difId_lt streams L hv j kk hkk
+    have hkkid : difIdAt L j = kk := by unfold difIdAt; rw [hkk]; rfl
     obtain ⟨hg1, hg2, hg3⟩ := Sectors.get_spec s kk rd _ hinv
     rw [hsz, mainBody_sec streams L kk _ hown] at hg1
     simp only [sectorOf] at hg1
@@ -757,17 +894,33 @@ theorem difatLoop_layout (streams : List Stream) (L : Layout) (hv : ValidP strea
         [L.difIds[j + 1]?.getD ENDOFCHAIN] := by
       unfold difSector; exact u32s_le32s _ hE
     have hlen := difSector_length L j
-    have hne : difSector L j ≠ [] := by
-      intro h; rw [h] at hlen; rcases ss_cases L with ⟨h1, _⟩ | ⟨h1, _⟩ <;> simp [h1] at hlen
-    have hmod : (difSector L j).length % 4 = 0 := by
-      rcases ss_cases L with ⟨h1, _⟩ | ⟨h1, _⟩ <;> omega
+    have hfullk : (kk + 1) * s.size ≤ (mainBody streams L).length := by
+      rw [mainBody_length, hsz, Nat.mul_comm]; exact Nat.mul_le_mul_left _ (by omega)
+    have hcovk := Sectors.get_covers s kk rd _ hinv hfullk
+    have hmono := Sectors.get_data_mono s kk rd
+    have hcov' : ∀ i, i < j + 1 → (difIdAt L i + 1) * L.ss ≤ (s.get kk rd).2.1.data.length := by
+      intro i hi
+      by_cases hij : i < j
+      · exact Nat.le_trans (hcov i hij) hmono
+      · have : i = j := by omega
+        subst this; rw [hkkid, ← hsz]; exact hcovk
+    have hnd : ((List.range (j + 1)).map (difIdAt L)).Nodup :=
+      nodup_of_owner L.main.owner Slot.difat slot_difat_inj (difIdAt L) (j + 1)
+        (fun i hi => (difIdAt_spec streams L hv i (by simp only [Layout.ndif]; omega)).2)
+    have hcnt := covered_count L.ss _ (ss_pos L) _ hnd (by
+      intro x hx
+      simp only [List.mem_map, List.mem_range] at hx
+      obtain ⟨i, hi, rfl⟩ := hx
+      exact hcov' i hi)
+    simp only [List.length_map, List.length_range] at hcnt
     obtain ⟨s', rd', he, hi', hs'⟩ := ih (j + 1) (by omega) rem' (s.get kk rd).2.1 (s.get kk rd).2.2 (by omega) hg2
-      (by rw [hg3, hsz])
+      (by rw [hg3, hsz]) hcov'
     refine ⟨s', rd', ?_, hi', hs'⟩
     rw [hkk]
     simp only [Option.getD_some]
     unfold difatLoop
-    simp only [hres, if_true, hg1, hne, hmod, false_or, ne_eq, not_true_eq_false, if_false, hu]
+    have hchk : ¬ ((j + 1) * L.ss > (s.get kk rd).2.1.data.length) := by omega
+    simp only [hres, if_true, hg1, hlen, hsz, ne_eq, not_true_eq_false, if_false, hu, hchk]
     rw [← List.append_assoc, List.getLastD_concat, List.dropLast_concat, ← difatUpTo_succ]
     exact he
 
@@ -822,19 +975,19 @@ theorem fatId_spec (streams : List Stream) (L : Layout) (hv : ValidP streams L) 
   rw [hk]
   exact ⟨owner_lt _ _ _ ho, ho⟩
 
-theorem loadFats_layout (streams : List Stream) (L : Layout) (hv : ValidP streams L) (lim : Nat) :
-    ∀ (m a : Nat) (s : Sectors) (rd : Bytes) (acc : Nat), s.data ++ rd = mainBody streams L → s.size = L.ss →
-      acc + (((List.range' a m).map fun j => if j < L.nfat then fatRow L j else []).flatten).length ≤ lim →
-      ∃ s' rd', loadFats ((List.range' a m).map (fatIdAt L)) s rd lim acc =
+theorem loadFats_layout (streams : List Stream) (L : Layout) (hv : ValidP streams L) :
+    ∀ (m a : Nat) (s : Sectors) (rd : Bytes), s.data ++ rd = mainBody streams L → s.size = L.ss →
+      (∀ j, j < min a L.nfat → (fatIdAt L j + 1) * L.ss ≤ s.data.length) →
+      ∃ s' rd', loadFats ((List.range' a m).map (fatIdAt L)) s rd (min a L.nfat * L.perFat) =
           .ok (((List.range' a m).map fun j => if j < L.nfat then fatRow L j else []).flatten, s', rd') ∧
-        s'.data ++ rd' = mainBody streams L ∧ s'.size = L.ss ∧ s'.limit = s.limit := by
+        s'.data ++ rd' = mainBody streams L ∧ s'.size = L.ss := by
   intro m
   induction m with
-  | zero => intro a s rd acc hinv hsz _; exact ⟨s, rd, by simp [loadFats], hinv, hsz, rfl⟩
+  | zero => intro a s rd hinv hsz _; exact ⟨s, rd, by simp [loadFats], hinv, hsz⟩
   | succ m ih =>
-    intro a s rd acc hinv hsz hlim
-    rw [List.range'_succ] at hlim ⊢
-    simp only [List.map_cons, List.flatten_cons, List.length_append] at hlim ⊢
+    intro a s rd hinv hsz hcov
+    rw [List.range'_succ]
+    simp only [List.map_cons, List.flatten_cons]
     by_cases ha : a < L.nfat
     · obtain ⟨hlt, hown⟩ := fatId_spec streams L hv a ha
       obtain ⟨hg1, hg2, hg3⟩ := Sectors.get_spec s (fatIdAt L a) rd _ hinv
@@ -847,22 +1000,49 @@ theorem loadFats_layout (streams : List Stream) (L : Layout) (hv : ValidP stream
         simp only [List.mem_map] at hv'
         obtain ⟨t, _, rfl⟩ := hv'
         exact main_entry_lt streams L hv t
-      simp only [ha, if_true] at hlim
-      obtain ⟨s', rd', he, hi', hs', hl'⟩ := ih (a + 1) (s.get (fatIdAt L a) rd).2.1 (s.get (fatIdAt L a) rd).2.2
-        (acc + (fatRow L a).length) hg2 (by rw [hg3, hsz]) (by omega)
-      refine ⟨s', rd', ?_, hi', hs', hl'⟩
+      have hrow : (fatRow L a).length = L.perFat := by simp [fatRow]
+      have hmin : min a L.nfat = a := by omega
+      have hmin' : min (a + 1) L.nfat = a + 1 := by omega
+      have hfullk : (fatIdAt L a + 1) * s.size ≤ (mainBody streams L).length := by
+        rw [mainBody_length, hsz, Nat.mul_comm]; exact Nat.mul_le_mul_left _ (by omega)
+      have hcovk := Sectors.get_covers s (fatIdAt L a) rd _ hinv hfullk
+      have hmono := Sectors.get_data_mono s (fatIdAt L a) rd
+      have hcov' : ∀ j, j < min (a + 1) L.nfat →
+          (fatIdAt L j + 1) * L.ss ≤ (s.get (fatIdAt L a) rd).2.1.data.length := by
+        intro j hj
+        by_cases hja : j < a
+        · exact Nat.le_trans (hcov j (by omega)) hmono
+        · have : j = a := by omega
+          subst this; rw [← hsz]; exact hcovk
+      have hnd : ((List.range (a + 1)).map (fatIdAt L)).Nodup :=
+        nodup_of_owner L.main.owner Slot.fat slot_fat_inj (fatIdAt L) (a + 1)
+          (fun i hi => (fatId_spec streams L hv i (by omega)).2)
+      have hcnt := covered_count L.ss _ (ss_pos L) _ hnd (by
+        intro x hx
+        simp only [List.mem_map, List.mem_range] at hx
+        obtain ⟨i, hi, rfl⟩ := hx
+        exact hcov' i (by omega))
+      simp only [List.length_map, List.length_range] at hcnt
+      obtain ⟨s', rd', he, hi', hs'⟩ := ih (a + 1) (s.get (fatIdAt L a) rd).2.1 (s.get (fatIdAt L a) rd).2.2 hg2
+        (by rw [hg3, hsz]) hcov'
+      refine ⟨s', rd', ?_, hi', hs'⟩
       have hd : fatIdAt L a < DIFSECT := by have := hv.total_le; simp only [RESERVED, DIFSECT] at *; omega
-      have hchk : ¬ (acc + (fatRow L a).length > lim) := by omega
+      have hchk : ¬ ((a * L.perFat + L.perFat) * 4 > (s.get (fatIdAt L a) rd).2.1.data.length) := by
+        rcases ss_cases L with ⟨h1, h2⟩ | ⟨h1, h2⟩ <;> rw [h1] at hcnt <;> rw [h2] <;> omega
+      have hacc : a * L.perFat + L.perFat = (a + 1) * L.perFat := by rw [Nat.add_mul, Nat.one_mul]
+      rw [hmin' , ← hacc] at he
       unfold loadFats
-      simp only [hd, if_true, hg1, hu, hchk, if_false, he, ha]
-    · simp only [ha, if_false, List.length_nil, Nat.zero_add] at hlim
-      obtain ⟨s', rd', he, hi', hs', hl'⟩ := ih (a + 1) s rd acc hinv hsz hlim
-      refine ⟨s', rd', ?_, hi', hs', hl'⟩
+      simp only [hd, if_true, hg1, hu, hrow, hmin, hchk, if_false, he, ha]
+    · have hmin : min a L.nfat = L.nfat := by omega
+      have hmin' : min (a + 1) L.nfat = L.nfat := by omega
+      obtain ⟨s', rd', he, hi', hs'⟩ := ih (a + 1) s rd hinv hsz (by rw [hmin']; rw [hmin] at hcov; exact hcov)
+      refine ⟨s', rd', ?_, hi', hs'⟩
       have hfree : fatIdAt L a = FREESECT := by
         unfold fatIdAt
         rw [Array.getElem?_eq_none (by simp only [Layout.nfat] at ha; omega)]; rfl
+      rw [hmin'] at he
       unfold loadFats
-      simp only [hfree, FREESECT, DIFSECT, ha, if_false, List.nil_append]
+      simp only [hfree, FREESECT, DIFSECT, ha, if_false, List.nil_append, hmin]
       simpa [FREESECT, DIFSECT] using he
 
 
@@ -905,35 +1085,7 @@ theorem fat_rows_all (L : Layout) (M : Nat) (hM : L.nfat ≤ M) :
 /-! ## general chain read -/
 
 
-theorem flatten_uniform_length (ss : Nat) : ∀ (Ls : List Bytes), (∀ x ∈ Ls, x.length = ss) →
-    Ls.flatten.length = ss * Ls.length := by
-  intro Ls
-  induction Ls with
-  | nil => simp
-  | cons x xs ih =>
-    intro h
-    simp only [List.flatten_cons, List.length_append, List.length_cons]
-    rw [ih (fun y hy => h y (by simp [hy])), h x (by simp), Nat.mul_add]; omega
-
-theorem Space.body_length (sp : Space) (ss : Nat) (fill : UInt8) (P : Array (Array Bytes)) (fatSec difSec : Nat → Bytes)
-    (hP : UniformP ss P) (hf : ∀ j, (fatSec j).length = ss) (hd : ∀ j, (difSec j).length = ss) :
-    (sp.body ss fill P fatSec difSec).length = ss * sp.owner.size := by
-  unfold Space.body
-  rw [flatten_uniform_length ss]
-  · simp
-  · intro x hx
-    simp only [List.mem_map] at hx
-    obtain ⟨s', _, rfl⟩ := hx
-    exact sectorOf_length ss fill P fatSec difSec hP hf hd s'
-
-theorem sec_append_left (B extra : Bytes) (ss id : Nat) (h : (id + 1) * ss ≤ B.length) :
-    sec (B ++ extra) ss id = sec B ss id := by
-  unfold sec
-  rw [List.drop_append_of_le_length (by rw [Nat.add_mul] at h; omega)]
-  rw [List.take_append_of_le_length (by rw [List.length_drop, Nat.add_mul] at *; omega)]
-
-/-- `get_chain` on chain `c` of a space, for any `len` argument; the reader may hold more than the space;
-    `hlim`: the space fits the file length the reader was given -/
+/-- `get_chain` on chain `c` of a space, for any `len` argument; the reader may hold more than the space -/
 theorem Space.getChain_gen (sp : Space) (ss : Nat) (hss : 0 < ss) (fill : UInt8) (P : Array (Array Bytes))
     (fatSec difSec : Nat → Bytes)
     (hP : UniformP ss P) (hf : ∀ j, (fatSec j).length = ss) (hd : ∀ j, (difSec j).length = ss)
@@ -941,12 +1093,17 @@ theorem Space.getChain_gen (sp : Space) (ss : Nat) (hss : 0 < ss) (fill : UInt8)
     (hok : chainOK sp c (nsect ss D.length) = true)
     (len : Nat) (hlen : sp.owner.size ≤ len) (hres : sp.owner.size ≤ RESERVED)
     (s : Sectors) (rd extra : Bytes) (hsz : s.size = ss)
-    (hinv : s.data ++ rd = sp.body ss fill P fatSec difSec ++ extra) (hlim : ss * sp.owner.size ≤ s.limit)
-    (len0 : Nat) :
+    (hinv : s.data ++ rd = sp.body ss fill P fatSec difSec ++ extra) (len0 : Nat) :
     ∃ s' rd', s.getChain (chainStart sp c) (sp.fats len) rd len0 =
         .ok (if len0 > 0 then (padChunks ss fill D.length D).flatten.take len0
              else (padChunks ss fill D.length D).flatten, s', rd') ∧
       s'.data ++ rd' = sp.body ss fill P fatSec difSec ++ extra ∧ s'.size = ss := by
+  have hbl := Space.body_length sp ss fill P fatSec difSec hP hf hd
+  have hfull : ∀ x ∈ sp.ids c, (x + 1) * s.size ≤ (sp.body ss fill P fatSec difSec ++ extra).length := by
+    intro x hx
+    have := Space.ids_lt sp c _ hok x hx
+    rw [List.length_append, hbl, hsz, Nat.mul_comm]
+    exact Nat.le_trans (Nat.mul_le_mul_left ss (by omega : x + 1 ≤ sp.owner.size)) (Nat.le_add_right _ _)
   have hmap : (sp.ids c).map (sec (sp.body ss fill P fatSec difSec ++ extra) s.size) =
       padChunks ss fill D.length D := by
     rw [← Space.read_chain sp ss hss fill P fatSec difSec hP hf hd c D hPc hok]
@@ -954,18 +1111,13 @@ theorem Space.getChain_gen (sp : Space) (ss : Nat) (hss : 0 < ss) (fill : UInt8)
     intro id hid
     rw [hsz]
     apply sec_append_left
-    rw [Space.body_length sp ss fill P fatSec difSec hP hf hd]
+    rw [hbl]
     have := Space.ids_lt sp c _ hok id hid
     rw [Nat.mul_comm]
     exact Nat.mul_le_mul_left ss (by omega)
-  have hflen : (padChunks ss fill D.length D).flatten.length ≤ s.limit := by
-    rw [flatten_uniform_length ss _ (padChunks_all_len ss fill _ _), padChunks_length ss fill hss _ _ (Nat.le_refl _)]
-    have h1 := Space.ids_length_le sp c _ hok
-    rw [(Space.ids_spec sp c _ hok).1] at h1
-    exact Nat.le_trans (Nat.mul_le_mul_left ss h1) hlim
-  have hfol := chainLoop_follow (sp.fats len) _ (sp.ids c) (sp.fats len).length s rd 0 hinv
-    (by rw [Space.fats_length]; exact Nat.le_trans (Space.ids_length_le sp c _ hok) hlen)
-    (Space.fats_chain sp c _ len hok hlen hres) (by rw [hmap]; omega)
+  have hfol := chainLoop_follow (sp.fats len) _ (sp.ids c) (sp.fats len).length s rd hinv
+    (by rw [Space.fats_length]; exact Nat.le_trans (Space.ids_length_le sp c _ hok) hlen) (by rw [hsz]; exact hss)
+    (Space.fats_chain sp c _ len hok hlen hres) (Space.ids_nodup sp c _ hok) hfull
   obtain ⟨s', rd', he, hi, hs⟩ := hfol
   refine ⟨s', rd', ?_, hi, by rw [hs, hsz]⟩
   unfold Sectors.getChain
@@ -1338,7 +1490,6 @@ theorem mainData_stream (streams : List Stream) (L : Layout) (s : Nat) (st : Str
   rw [this]
   simp only [List.getElem?_cons_succ, List.getElem?_map, h, Option.map_some]
 
-theorem ss_pos (L : Layout) : 0 < L.ss := by rcases ss_cases L with ⟨h, _⟩ | ⟨h, _⟩ <;> omega
 
 theorem stream_size_lt (streams : List Stream) (L : Layout) (hv : ValidP streams L) (s : Nat) (st : Stream)
     (h : streams[s]? = some st) : st.data.length < 18446744073709551616 := by
@@ -1458,8 +1609,6 @@ theorem nsect_mul (ss q : Nat) (hss : 0 < ss) : nsect ss (q * ss) = q := by
   have : q * ss + ss - 1 = (ss - 1) + q * ss := by omega
   rw [this, Nat.add_mul_div_right _ _ hss, Nat.div_eq_of_lt (by omega)]; omega
 
-theorem slot_fat_inj : ∀ a b, Slot.fat a = Slot.fat b → a = b := by intro a b h; injection h
-theorem slot_difat_inj : ∀ a b, Slot.difat a = Slot.difat b → a = b := by intro a b h; injection h
 
 theorem chain_size_le (sp : Space) (c n : Nat) (h : chainOK sp c n = true) : n ≤ sp.owner.size := by
   have := Space.ids_length_le sp c n h
@@ -1503,9 +1652,6 @@ theorem hdrDifat_lt (streams : List Stream) (L : Layout) (hv : ValidP streams L)
   simp only [hdrDifat, List.mem_map] at hvm
   obtain ⟨t, _, rfl⟩ := hvm
   exact fatIdAt_lt streams L hv t
-
-theorem mainBody_length (streams : List Stream) (L : Layout) : (mainBody streams L).length = L.ss * L.total :=
-  Space.body_length L.main L.ss L.fill _ _ _ (mainPieces_uniform streams L) (fatSector_length L) (difSector_length L)
 
 theorem layoutCfb_length (streams : List Stream) (L : Layout) : (layoutCfb streams L).length = L.ss * (1 + L.total) := by
   unfold layoutCfb
@@ -1589,65 +1735,70 @@ theorem dir_chain_result (D : Bytes) (len0 : Nat) (h : len0 = 0 ∨ len0 = D.len
 
 theorem getChain_params (s : Sectors) (start : Nat) (fats : List Nat) (rd : Bytes) (len : Nat)
     (x : Bytes) (s' : Sectors) (rd' : Bytes) (h : s.getChain start fats rd len = .ok (x, s', rd')) :
-    s'.size = s.size ∧ s'.limit = s.limit := by
+    s'.size = s.size ∧ s'.data.length + rd'.length = s.data.length + rd.length ∧ s.data.length ≤ s'.data.length ∧
+    x.length ≤ s'.data.length := by
   unfold Sectors.getChain at h
   split at h
   · rename_i chain s'' rd'' heq
-    injection h with h; injection h with _ h; injection h with h1 _
-    subst h1
-    exact chainLoop_params fats _ _ _ _ _ _ _ _ heq
+    injection h with h; injection h with h0 h; injection h with h1 h2
+    obtain ⟨p1, p2, p3, p4⟩ := chainLoop_params fats _ _ _ _ _ _ _ _ heq
+    subst h0 h1 h2
+    refine ⟨p1, p2, p3, ?_⟩
+    have := p4 (Nat.zero_le _)
+    split
+    · rw [List.length_take]; omega
+    · omega
   · cases h
   · cases h
   · cases h
 
-theorem difatLoop_params : ∀ (rem id : Nat) (difat : List Nat) (s : Sectors) (rd : Bytes)
+theorem difatLoop_params : ∀ (fuel id : Nat) (difat : List Nat) (s : Sectors) (rd : Bytes) (count : Nat)
     (d : List Nat) (s' : Sectors) (rd' : Bytes),
-    difatLoop rem id difat s rd = .ok (d, s', rd') → s'.size = s.size ∧ s'.limit = s.limit := by
-  intro rem
-  induction rem with
+    difatLoop fuel id difat s rd count = .ok (d, s', rd') →
+    s'.size = s.size ∧ s'.data.length + rd'.length = s.data.length + rd.length ∧ s.data.length ≤ s'.data.length := by
+  intro fuel
+  induction fuel with
   | zero =>
-    intro id difat s rd d s' rd' h
+    intro id difat s rd count d s' rd' h
     unfold difatLoop at h
     split at h
     · cases h
-    · injection h with h; injection h with _ h; injection h with h1 _; subst h1; exact ⟨rfl, rfl⟩
-  | succ rem ih =>
-    intro id difat s rd d s' rd' h
+    · injection h with h; injection h with _ h; injection h with h1 h2; subst h1 h2
+      exact ⟨rfl, rfl, Nat.le_refl _⟩
+  | succ fuel ih =>
+    intro id difat s rd count d s' rd' h
     unfold difatLoop at h
     split at h
     · dsimp only at h
       split at h
       · cases h
-      · have := ih _ _ _ _ _ _ _ h
-        exact ⟨this.1.trans (Sectors.get_spec s id rd _ rfl).2.2, this.2⟩
-    · injection h with h; injection h with _ h; injection h with h1 _; subst h1; exact ⟨rfl, rfl⟩
+      · split at h
+        · cases h
+        · obtain ⟨p1, p2, p3⟩ := ih _ _ _ _ _ _ _ _ h
+          exact ⟨p1.trans (Sectors.get_spec s id rd _ rfl).2.2, by rw [p2]; exact Sectors.get_conserve s id rd,
+            Nat.le_trans (Sectors.get_data_mono s id rd) p3⟩
+    · injection h with h; injection h with _ h; injection h with h1 h2; subst h1 h2
+      exact ⟨rfl, rfl, Nat.le_refl _⟩
 
 theorem new_layout (streams : List Stream) (L : Layout) (hv : ValidP streams L) :
     ∃ s rd, Cfb.new (layoutCfb streams L) (layoutCfb streams L).length =
-        .ok (⟨parsedDirs streams L, s, L.main.fats (L.nfat * L.perFat),
-              ⟨miniBody streams L, 64, (layoutCfb streams L).length⟩, miniFatTable L⟩, rd) ∧
-      s.data ++ rd = mainBody streams L ∧ s.size = L.ss ∧ s.limit = (layoutCfb streams L).length := by
+        .ok (⟨parsedDirs streams L, s, L.main.fats (L.nfat * L.perFat), ⟨miniBody streams L, 64⟩, miniFatTable L⟩, rd) ∧
+      s.data ++ rd = mainBody streams L ∧ s.size = L.ss := by
   have hss := ss_pos L
   have hLf := layoutCfb_length streams L
-  have hfit : L.ss * L.main.owner.size ≤ (layoutCfb streams L).length := by
-    rw [hLf]; exact Nat.mul_le_mul_left _ (by simp only [Layout.total]; omega)
   have h1 := fromReader_layout streams L (hdrFields_lt streams L hv) (hdrDifat_lt streams L hv)
   have hdN : L.ndif ≤ L.total := idsOK_size_le _ _ _ slot_difat_inj hv.difIds
-  have hrem : L.ndif ≤ (layoutCfb streams L).length / L.ss + 1 := by
-    rw [layoutCfb_length, Nat.mul_div_cancel_left _ hss]; omega
+  have hrem : L.ndif ≤ (layoutCfb streams L).length + 1 := by
+    rw [hLf]
+    have : 1 + L.total ≤ L.ss * (1 + L.total) := Nat.le_mul_of_pos_left _ hss
+    omega
   obtain ⟨s1, rd1, e2, i2, z2⟩ := difatLoop_layout streams L hv L.ndif 0 (by omega) _
-    ⟨[], L.ss, (layoutCfb streams L).length⟩ (mainBody streams L) hrem (by simp) rfl
-  have l1 : s1.limit = (layoutCfb streams L).length := (difatLoop_params _ _ _ _ _ _ _ _ e2).2
+    ⟨[], L.ss⟩ (mainBody streams L) hrem (by simp) rfl (by intro i hi; omega)
   have hd0 : difatUpTo L 0 = hdrDifat L := by simp [difatUpTo, hdrDifat]
   rw [hd0] at e2
-  have hnf : L.nfat ≤ L.total := idsOK_size_le _ _ _ slot_fat_inj hv.fatIds
-  have hfl : 0 + (((List.range' 0 (109 + L.ndif * (L.perFat - 1))).map
-      fun j => if j < L.nfat then fatRow L j else []).flatten).length ≤ (layoutCfb streams L).length / 4 := by
-    rw [fat_rows_all L _ hv.nfat_le, Space.fats_length, hLf]
-    rcases ss_cases L with ⟨h1, h2⟩ | ⟨h1, h2⟩ <;> rw [h1, h2] <;> omega
-  obtain ⟨s2, rd2, e3, i3, z3, l2⟩ := loadFats_layout streams L hv ((layoutCfb streams L).length / 4)
-    (109 + L.ndif * (L.perFat - 1)) 0 s1 rd1 0 i2 z2 hfl
-  rw [l1] at l2
+  obtain ⟨s2, rd2, e3, i3, z3⟩ := loadFats_layout streams L hv (109 + L.ndif * (L.perFat - 1)) 0 s1 rd1 i2 z2
+    (by intro j hj; simp at hj)
+  simp only [Nat.zero_min, Nat.zero_mul] at e3
   have hdN' : difatUpTo L L.ndif = (List.range' 0 (109 + L.ndif * (L.perFat - 1))).map (fatIdAt L) := by
     simp [difatUpTo, List.range_eq_range']
   rw [← hdN', fat_rows_all L _ hv.nfat_le] at e3
@@ -1658,8 +1809,7 @@ theorem new_layout (streams : List Stream) (L : Layout) (hv : ValidP streams L) 
   obtain ⟨s3, rd3, e4, i4, z4⟩ := Space.getChain_gen L.main L.ss hss L.fill (mainPieces streams L) (fatSector L)
     (difSector L) (mainPieces_uniform streams L) (fatSector_length L) (difSector_length L) 0 (dirBytes streams L)
     (mainPieces_get streams L 0 _ rfl) hc0 (L.nfat * L.perFat) hv.total_fat hv.total_le s2 rd2 [] z3
-    (by rw [List.append_nil]; exact i3) (by rw [l2]; exact hfit) ((hdrOf streams L).dirLen * L.ss)
-  have l3 : s3.limit = (layoutCfb streams L).length := by rw [(getChain_params _ _ _ _ _ _ _ _ e4).2, l2]
+    (by rw [List.append_nil]; exact i3) ((hdrOf streams L).dirLen * L.ss)
   rw [padChunks_flatten_exact L.ss L.fill hss _ _ (Nat.le_refl _) (by rw [hdl]; exact Nat.mul_mod_left _ _)] at e4
   rw [dir_chain_result] at e4
   · unfold Cfb.new
@@ -1688,8 +1838,7 @@ theorem new_layout (streams : List Stream) (L : Layout) (hv : ValidP streams L) 
       obtain ⟨s4, rd4, e5, i5, z5⟩ := Space.getChain_gen L.main L.ss hss L.fill (mainPieces streams L) (fatSector L)
         (difSector L) (mainPieces_uniform streams L) (fatSector_length L) (difSector_length L) 2 (miniBody streams L)
         (mainPieces_get streams L 2 _ rfl) hc2 (L.nfat * L.perFat) hv.total_fat hv.total_le s3 rd3 [] z4
-        (by rw [List.append_nil]; exact i4) (by rw [l3]; exact hfit) (64 * L.mtotal)
-      have l4 : s4.limit = (layoutCfb streams L).length := by rw [(getChain_params _ _ _ _ _ _ _ _ e5).2, l3]
+        (by rw [List.append_nil]; exact i4) (64 * L.mtotal)
       rw [List.append_nil] at i5
       have hmini : (if 64 * L.mtotal > 0 then
           (padChunks L.ss L.fill (miniBody streams L).length (miniBody streams L)).flatten.take (64 * L.mtotal)
@@ -1703,19 +1852,18 @@ theorem new_layout (streams : List Stream) (L : Layout) (hv : ValidP streams L) 
       obtain ⟨s5, rd5, e6, i6, z6⟩ := Space.getChain_gen L.main L.ss hss L.fill (mainPieces streams L) (fatSector L)
         (difSector L) (mainPieces_uniform streams L) (fatSector_length L) (difSector_length L) 1 (le32s (miniFatTable L))
         (mainPieces_get streams L 1 _ rfl) hc1 (L.nfat * L.perFat) hv.total_fat hv.total_le s4 rd4 [] z5
-        (by rw [List.append_nil]; exact i5) (by rw [l4]; exact hfit) (chainLen L.main 1 * L.ss)
-      have l5 : s5.limit = (layoutCfb streams L).length := by rw [(getChain_params _ _ _ _ _ _ _ _ e6).2, l4]
+        (by rw [List.append_nil]; exact i5) (chainLen L.main 1 * L.ss)
       rw [List.append_nil] at i6
       rw [padChunks_flatten_exact L.ss L.fill hss _ _ (Nat.le_refl _) (by rw [hml]; exact Nat.mul_mod_left _ _)] at e6
       rw [dir_chain_result _ _ (Or.inr (by rw [hcl, hml]))] at e6
-      refine ⟨s5, rd5, ?_, i6, z6, l5⟩
+      refine ⟨s5, rd5, ?_, i6, z6⟩
       rw [e5]
       simp only [Res.bind_ok]
       rw [e6]
       simp only [Res.bind_ok, miniFat_u32s streams L hv]
     · simp only [hmf, if_false]
       rw [List.append_nil] at i4
-      refine ⟨s3, rd3, ?_, i4, z4, l3⟩
+      refine ⟨s3, rd3, ?_, i4, z4⟩
       have hm0 : L.mtotal = 0 := by
         have h0 : nsect L.perFat L.mtotal = 0 := by omega
         have := le_nsect_mul L.perFat L.mtotal (by rcases ss_cases L with ⟨_, h⟩ | ⟨_, h⟩ <;> omega)
@@ -1798,15 +1946,14 @@ theorem Space.getChain_cached (sp : Space) (ss : Nat) (hss : 0 < ss) (fill : UIn
     (hP : UniformP ss P) (hf : ∀ j, (fatSec j).length = ss) (hd : ∀ j, (difSec j).length = ss)
     (c : Nat) (D : Bytes) (hPc : P[c]? = some (pieces ss fill D))
     (hok : chainOK sp c (nsect ss D.length) = true)
-    (len : Nat) (hlen : sp.owner.size ≤ len) (hres : sp.owner.size ≤ RESERVED) (rd : Bytes)
-    (lim : Nat) (hlim : ss * sp.owner.size ≤ lim) (len0 : Nat) :
-    (⟨sp.body ss fill P fatSec difSec, ss, lim⟩ : Sectors).getChain (chainStart sp c) (sp.fats len) rd len0 =
+    (len : Nat) (hlen : sp.owner.size ≤ len) (hres : sp.owner.size ≤ RESERVED) (rd : Bytes) (len0 : Nat) :
+    (⟨sp.body ss fill P fatSec difSec, ss⟩ : Sectors).getChain (chainStart sp c) (sp.fats len) rd len0 =
         .ok (if len0 > 0 then (padChunks ss fill D.length D).flatten.take len0
-             else (padChunks ss fill D.length D).flatten, ⟨sp.body ss fill P fatSec difSec, ss, lim⟩, rd) := by
+             else (padChunks ss fill D.length D).flatten, ⟨sp.body ss fill P fatSec difSec, ss⟩, rd) := by
   obtain ⟨s', rd', he, _, _⟩ := Space.getChain_gen sp ss hss fill P fatSec difSec hP hf hd c D hPc hok len hlen hres
-    ⟨sp.body ss fill P fatSec difSec, ss, lim⟩ rd rd rfl rfl hlim len0
+    ⟨sp.body ss fill P fatSec difSec, ss⟩ rd rd rfl rfl len0
   rw [he]
-  have hst : s' = ⟨sp.body ss fill P fatSec difSec, ss, lim⟩ ∧ rd' = rd := by
+  have hst : s' = ⟨sp.body ss fill P fatSec difSec, ss⟩ ∧ rd' = rd := by
     unfold Sectors.getChain at he
     split at he
     · rename_i chain s'' rd'' heq
@@ -1912,27 +2059,10 @@ theorem find_stream (streams : List Stream) (L : Layout) (hv : ValidP streams L)
 structure Good (streams : List Stream) (L : Layout) (c : CfbSt) (rd : Bytes) : Prop where
   dirs : c.dirs = parsedDirs streams L
   fats : c.fats = L.main.fats (L.nfat * L.perFat)
-  mini : c.mini = ⟨miniBody streams L, 64, (layoutCfb streams L).length⟩
+  mini : c.mini = ⟨miniBody streams L, 64⟩
   miniFats : c.miniFats = miniFatTable L
   inv : c.sectors.data ++ rd = mainBody streams L
   size : c.sectors.size = L.ss
-  limit : c.sectors.limit = (layoutCfb streams L).length
-
-theorem main_fits (streams : List Stream) (L : Layout) : L.ss * L.main.owner.size ≤ (layoutCfb streams L).length := by
-  rw [layoutCfb_length]; exact Nat.mul_le_mul_left _ (by simp only [Layout.total]; omega)
-
-theorem mini_fits (streams : List Stream) (L : Layout) (hv : ValidP streams L) :
-    64 * L.mini.owner.size ≤ (layoutCfb streams L).length := by
-  have hc2 := hv.chains 2 (by omega)
-  have hd2 : (mainData streams L).getD 2 [] = miniBody streams L := rfl
-  rw [hd2, miniBody_length] at hc2
-  have h1 := chain_size_le L.main 2 _ hc2
-  have h2 := le_nsect_mul L.ss (64 * L.mtotal) (ss_pos L)
-  have h3 : nsect L.ss (64 * L.mtotal) * L.ss ≤ L.main.owner.size * L.ss := Nat.mul_le_mul_right _ h1
-  have h4 := main_fits streams L
-  rw [Nat.mul_comm L.ss] at h4
-  simp only [Layout.mtotal] at h2 h3
-  omega
 
 theorem stream_read_result (ss : Nat) (fill : UInt8) (hss : 0 < ss) (D : Bytes) :
     (if D.length > 0 then (padChunks ss fill D.length D).flatten.take D.length
@@ -1950,8 +2080,8 @@ theorem getStream_layout (streams : List Stream) (L : Layout) (hv : ValidP strea
     · exact hlt
     · rw [List.getElem?_eq_none (by omega)] at hst; cases hst
   obtain ⟨dirs, sectors, fats, mini, miniFats⟩ := c
-  obtain ⟨g1, g2, g3, g4, g5, g6, g7⟩ := hg
-  simp only at g1 g2 g3 g4 g5 g6 g7
+  obtain ⟨g1, g2, g3, g4, g5, g6⟩ := hg
+  simp only at g1 g2 g3 g4 g5 g6
   subst g1 g2 g3 g4
   unfold getStream
   simp only
@@ -1967,12 +2097,12 @@ theorem getStream_layout (streams : List Stream) (L : Layout) (hv : ValidP strea
     have := Space.getChain_cached L.mini 64 (by omega) L.fill (miniPieces streams L)
       (fun _ => List.replicate 64 L.fill) (fun _ => List.replicate 64 L.fill) (miniPieces_uniform streams L)
       (by simp) (by simp) s0 st.data (miniPieces_get streams L s0 st hst hm) hok _ hN (mtotal_le streams L hv) rd
-      (layoutCfb streams L).length (mini_fits streams L hv) st.data.length
+      st.data.length
     rw [stream_read_result 64 L.fill (by omega)] at this
     rw [miniFatTable_eq]
     unfold miniBody
     rw [this]
-    exact ⟨_, rd, rfl, ⟨rfl, rfl, rfl, rfl, g5, g6, g7⟩⟩
+    exact ⟨_, rd, rfl, ⟨rfl, rfl, rfl, rfl, g5, g6⟩⟩
   · have hge : ¬ st.data.length < 4096 := by simpa [isMini] using hm
     have hm' : isMini st = false := by simpa using hm
     simp only [hge, if_false, hm', Bool.false_eq_true]
@@ -1986,12 +2116,11 @@ theorem getStream_layout (streams : List Stream) (L : Layout) (hv : ValidP strea
     obtain ⟨s', rd', he, hi, hz⟩ := Space.getChain_gen L.main L.ss (ss_pos L) L.fill (mainPieces streams L) (fatSector L)
       (difSector L) (mainPieces_uniform streams L) (fatSector_length L) (difSector_length L) (3 + s0) st.data hP hok
       (L.nfat * L.perFat) hv.total_fat hv.total_le sectors rd [] g6
-      (by rw [List.append_nil]; exact g5) (by rw [g7]; exact main_fits streams L) st.data.length
-    have hl' := (getChain_params _ _ _ _ _ _ _ _ he).2
+      (by rw [List.append_nil]; exact g5) st.data.length
     rw [stream_read_result L.ss L.fill (ss_pos L)] at he
     rw [List.append_nil] at hi
     rw [he]
-    exact ⟨_, rd', rfl, ⟨rfl, rfl, rfl, rfl, hi, hz, hl'.trans g7⟩⟩
+    exact ⟨_, rd', rfl, ⟨rfl, rfl, rfl, rfl, hi, hz⟩⟩
 
 theorem hasDirectory_layout (streams : List Stream) (L : Layout) (hv : ValidP streams L) (c : CfbSt) (rd : Bytes)
     (hg : Good streams L c rd) (st : Stream) (hst : st ∈ streams) : hasDirectory c st.name = true := by
@@ -2005,8 +2134,8 @@ theorem hasDirectory_layout (streams : List Stream) (L : Layout) (hv : ValidP st
 
 theorem new_layout_good (streams : List Stream) (L : Layout) (hv : ValidP streams L) :
     ∃ c rd, Cfb.new (layoutCfb streams L) (layoutCfb streams L).length = .ok (c, rd) ∧ Good streams L c rd := by
-  obtain ⟨s, rd, he, hi, hz, hl⟩ := new_layout streams L hv
-  exact ⟨_, rd, he, ⟨rfl, rfl, rfl, rfl, hi, hz, hl⟩⟩
+  obtain ⟨s, rd, he, hi, hz⟩ := new_layout streams L hv
+  exact ⟨_, rd, he, ⟨rfl, rfl, rfl, rfl, hi, hz⟩⟩
 
 
 
